@@ -2,8 +2,9 @@
 //!
 //! Engine: `checks_ice::reqres` (reference model + interpreter, generic over `local` / `ipc`).
 //! Parts:
-//!  * `exhaustive.local` — one client, one server, two overlapping requests: every applicable op
-//!    sequence of length L over a 13-op alphabet, for a grid of 16 configurations and two prologues
+//!  * `exhaustive.local` (and, thorough tier, `exhaustive.deep` = one op longer on 4 configurations)
+//!    — one client, one server, two overlapping requests: every applicable op
+//!    sequence of length L over a 13-op alphabet, for a grid of 12 / 16 configurations and two prologues
 //!    (fresh ports / ports whose channel ids have been cycled once so that the next request recycles
 //!    a channel that still holds a response of an earlier request);
 //!  * `random.local`, `random.ipc` — proptest histories of at most 80 ops over the full alphabet
@@ -46,11 +47,10 @@ const SPEC: Spec = Spec {
 };
 
 fn ro() -> RunOpts {
-    RunOpts { opts: Opts { address_probe: true, canary: true, check_log: false }, final_probe: false, probe_cycles: 0 }
+    RunOpts { opts: Opts { address_probe: true, canary: true, check_log: false, recheck_after_limit: false }, final_probe: false, probe_cycles: 0 }
 }
 
-fn exhaustive(ctx: &mut Ctx, open: &Open) {
-    let len = ctx.scale(5usize, 7);
+fn exhaustive(ctx: &mut Ctx, open: &Open, part: &str, len: usize, sub_grid: bool) {
     let alphabet = vec![
         Op::SendRequest(0),
         Op::ServerReceive(0),
@@ -78,11 +78,14 @@ fn exhaustive(ctx: &mut Ctx, open: &Open) {
     for buf in [1usize, 2] {
         for borrow in [1usize, 2] {
             // quick tier: a borrow limit above the buffer size adds nothing new
-            if ctx.quick() && borrow > buf {
+            if (ctx.quick() || sub_grid) && borrow > buf {
                 continue;
             }
             for resp_overflow in [false, true] {
                 for faf in [false, true] {
+                    if sub_grid && (faf || borrow > 1) {
+                        continue;
+                    }
                     grid.push(Cfg { max_clients: 1, max_servers: 1, max_active: 2, buf, borrow, req_overflow: true, resp_overflow, faf, loan_req: 1, loan_resp: 1 });
                 }
             }
@@ -106,7 +109,7 @@ fn exhaustive(ctx: &mut Ctx, open: &Open) {
     let excl = Excl::default();
     let r = ro();
     ctx.enumerate(
-        "exhaustive.local",
+        part,
         &format!("all applicable op sequences of length {len} (every prefix checked) over a 13-op alphabet, 1 client x 1 server x 2 overlapping requests, {ncfg} configurations x 2 prologues"),
         cases,
         |case: &Case, obs: &mut Obs| {
@@ -161,21 +164,13 @@ fn body(ctx: &mut Ctx) {
         Ok("c08") => return checks_ice::reqres::c08_parts(ctx),
         _ => {}
     }
-    if std::env::var("RR_COUNT").is_ok() {
-        if ctx.worker == 0 {
-            let open = Open::load();
-            let cfg = Cfg { max_clients: 1, max_servers: 1, max_active: 2, buf: 2, borrow: 1, req_overflow: true, resp_overflow: false, faf: false, loan_req: 1, loan_resp: 1 };
-            let alphabet = vec![Op::SendRequest(0), Op::ServerReceive(0), Op::SendResponse(0), Op::SendResponse(LAST), Op::PrReceive(0), Op::PrReceive(LAST), Op::DropPending(0), Op::DropPending(LAST), Op::DropActive(0), Op::DropActive(LAST), Op::DropResponse(0), Op::IsConnectedPr(LAST), Op::IsConnectedAr(0)];
-            for l in 3..=8 {
-                let n = enumerate_sequences(&cfg, &open, &[Op::CreateServer, Op::CreateClient], &alphabet, l).count();
-                eprintln!("len {l}: {n} sequences");
-            }
-        }
-        return;
-    }
     let open = Open::load();
     probes(ctx);
-    exhaustive(ctx, &open);
+    let len = ctx.scale(5usize, 6);
+    exhaustive(ctx, &open, "exhaustive.local", len, false);
+    if !ctx.quick() {
+        exhaustive(ctx, &open, "exhaustive.deep", 7, true);
+    }
     random(ctx, &open);
 }
 
